@@ -307,7 +307,8 @@ class ctx:
         Check if current asyncio task is cancelled, raises CancelledError if so.
         """
 
-        if (task := current_task()) and task.cancelled():
+        # running task is never in cancelled state yet - check for pending cancellation requests
+        if (task := current_task()) and (task.cancelled() or task.cancelling() > 0):
             raise CancelledError()
 
     @staticmethod
